@@ -1,13 +1,13 @@
 SPECIFICATION Spec
 CONSTANTS
   Fault = "none"
-  Cfgs <- T5B_Cfgs
+  Cfgs <- TH_Cfgs
   Soc0s <- SocAll
   Dts <- Dt2
-  Engs <- OnOnly
-  ClsOn <- T5_BelCls
-  ClsOff <- ClsZero
-  Depth = 5
+  Engs <- Bools
+  ClsOn <- TH_On
+  ClsOff <- QH_Off
+  Depth = 3
 INVARIANT L1
 INVARIANT L1s
 INVARIANT L2
